@@ -1,4 +1,6 @@
 """C03 Stored diagram well-formed; level bookkeeping"""
+import ereduce
+import ecanon
 import eunits
 
 LEVEL = "E-UNITS"
@@ -20,5 +22,8 @@ def run(ctx):
     ctx.floor("E-UNITS", "function bodies analysed", nfn, 900)
     ctx.floor("E-UNITS", "unit-carrying sites checked", nsites, 800)
     eunits.check_level_swap(ctx, F)
+    n = ereduce.run(ctx, F)
+    ctx.floor("E-TABLE.reduce", "abstract situations of the reduce functions", n, 400)
+    ecanon.check_level_swap_order(ctx, F)
     ctx.not_decided = ("uniqueness/reducedness of the stored graph after arbitrary histories; minimal node counts; "
                        "the then-edge regularity of complement-edge nodes (planned tag-lattice rule)")
